@@ -82,6 +82,28 @@ struct payload_t
     size_t begin, end, elem; // [begin, end) byte range of a tensor payload, size of one element
 };
 
+// the content hash of format version 0 as that format defines it (boost-style hash_combine over the elements' bits) - the driver's own
+// implementation, so that a weakened library hash shows as an undetected alteration instead of being asked whether it "collides"
+template <class tscalar>
+uint64_t v0_hash(const tscalar* data, const int64_t count)
+{
+    uint64_t hash = 0;
+    for (int64_t i = 0; i < count; ++i)
+    {
+        uint64_t bits = 0;
+        if constexpr (std::is_floating_point_v<tscalar>)
+        {
+            std::memcpy(&bits, &data[i], sizeof(tscalar)); // 4 or 8 bytes (little endian: the low bytes)
+        }
+        else
+        {
+            bits = static_cast<uint64_t>(data[i]);
+        }
+        hash = hash ^ (bits + 0x9e3779b9 + (hash << 6) + (hash >> 2));
+    }
+    return hash;
+}
+
 struct blob_t
 {
     std::string                              kind;
@@ -172,7 +194,7 @@ blob_t tensor_blob(vt::Rng& rng, int64_t maxdim, bool allow_zero, bool version0 
     {
         // a stream of the previous format: version field 0, the content hashed with detail::hash (hand-built: the library writes version 1)
         const uint32_t zero = 0U;
-        const uint64_t hash = detail::hash(tensor->data(), tensor->size());
+        const uint64_t hash = v0_hash(tensor->data(), static_cast<int64_t>(tensor->size()));
         std::memcpy(blob.bytes.data(), &zero, sizeof(zero));
         std::memcpy(blob.bytes.data() + header - sizeof(hash), &hash, sizeof(hash));
         blob.kind     = "tensor-v0" + blob.kind.substr(6);
@@ -182,7 +204,7 @@ blob_t tensor_blob(vt::Rng& rng, int64_t maxdim, bool allow_zero, bool version0 
             uint64_t             stored = 0U;
             std::memcpy(content.data(), bytes.data() + header, sizeof(tscalar) * static_cast<size_t>(count));
             std::memcpy(&stored, bytes.data() + header - sizeof(stored), sizeof(stored));
-            return detail::hash(content.data(), count) == stored;
+            return v0_hash(content.data(), static_cast<int64_t>(count)) == stored;
         };
     }
     return blob;
